@@ -10,32 +10,31 @@ use core::time::Duration;
 
 #[derive(Debug)]
 pub struct Delay {
-    deadline_ns: u64,
+    /// `None` = a deadline beyond the representable range (never fires).
+    deadline: Option<web_time::Instant>,
 }
 
-fn deadline(dur: Duration) -> u64 {
-    let n = dur.as_nanos();
-    let n = if n > u64::MAX as u128 { u64::MAX } else { n as u64 };
-    web_time::verif::now_ns().saturating_add(n)
+fn deadline(dur: Duration) -> Option<web_time::Instant> {
+    web_time::Instant::now().checked_add(dur)
 }
 
 impl Delay {
     pub fn new(dur: Duration) -> Delay {
-        Delay { deadline_ns: deadline(dur) }
+        Delay { deadline: deadline(dur) }
     }
     pub fn reset(&mut self, dur: Duration) {
-        self.deadline_ns = deadline(dur);
+        self.deadline = deadline(dur);
     }
     /// Shim-only accessor for assertions.
-    pub fn verif_deadline_ns(&self) -> u64 {
-        self.deadline_ns
+    pub fn verif_deadline(&self) -> Option<web_time::Instant> {
+        self.deadline
     }
 }
 
 impl Future for Delay {
     type Output = ();
     fn poll(self: Pin<&mut Self>, _cx: &mut Context<'_>) -> Poll<()> {
-        if web_time::verif::now_ns() >= self.deadline_ns {
+        if self.deadline.map_or(false, |d| web_time::Instant::now() >= d) {
             Poll::Ready(())
         } else {
             Poll::Pending
